@@ -2,7 +2,7 @@
    hand-written model Logging.l_next field by field, for every state, reward, done flag and smoothing factor.  The property
    theorems of props/C19.v (episode statistics blended exactly at episode ends, unchanged otherwise) are about l_next. *)
 From Coq Require Import List ZArith QArith Bool Lia.
-From Lerax Require Import KBase Logging.
+From Lerax Require Import KBase Env OnPolicy Logging.
 From LeraxGen Require Import GenK_C19.
 Open Scope Q_scope.
 
@@ -22,3 +22,53 @@ Proof.
   destruct d, (l_done s); repeat split; try reflexivity; try ring.
 Qed.
 Print Assumptions gen_lnext_eq_model.
+
+(* rollout_scan (benchmark/__init__.py), the evaluation helper, executed symbolically with the scanned step, the cond on `done` and the
+   two ways of calling the policy: the episode starts from initial(key) / policy.reset(key); the step is scanned over split(key, max_steps);
+   once an episode end (terminal OR truncated successor) has been seen every later step contributes reward 0 and changes nothing; the
+   result is the sum of the collected rewards = Logging.rollout_scan, about which props/C19.v proves "the undiscounted return up to and
+   including the first terminal or truncated state, or the step cap". *)
+Section RolloutScan.
+  Context {S PS O : Type}.
+  Variable E : env S Q O.
+  Variable P : acpol PS Q O.
+  Variable det : bool.
+
+  Section Generic.
+    Variable F : S * PS * bool -> kpath -> (S * PS * bool) * Q.
+    Hypothesis HF : forall s ps d k,
+      F (s, ps, d) k =
+      if d then ((s, ps, true), 0)
+      else let '(st1, r, d') := scan_step E P det (s, ps) k in ((fst st1, snd st1, d'), r).
+
+    Lemma kfoldmap_scan_rewards keys : forall s ps d,
+      snd (kfoldmap F (s, ps, d) keys) = scan_rewards E P det (s, ps) d keys.
+    Proof.
+      induction keys as [|k keys IH]; intros s ps d; [reflexivity|].
+      cbn [kfoldmap scan_rewards]. cbv zeta. rewrite HF.
+      destruct d.
+      - cbn [fst snd]. now rewrite IH.
+      - destruct (scan_step E P det (s, ps) k) as [[[s1 ps1] r] d'] eqn:ES. cbn [fst snd]. now rewrite IH.
+    Qed.
+  End Generic.
+
+  Theorem gen_rscan_eq_model (max_steps : nat) (k : kpath) :
+    gen_rscan_value E P det max_steps k = rollout_scan E P det k max_steps.
+  Proof.
+    unfold gen_rscan_value, rollout_scan. rewrite Nat2Z.id.
+    change (ksplit_keys k max_steps) with (split_keys k max_steps).
+    unfold kfoldmapi.
+    match goal with |- context [kfoldmap ?f _ _] => set (F := f) end.
+    assert (HF : forall s ps d k0,
+      F (s, ps, d) k0 =
+      if d then ((s, ps, true), 0)
+      else let '(st1, r, d') := scan_step E P det (s, ps) k0 in ((fst st1, snd st1, d'), r)).
+    { intros s ps d k0. subst F. cbv beta iota. destruct d; [reflexivity|].
+      unfold scan_step, call_policy. destruct det.
+      - destruct (p_act P ps (e_obs E s (ks k0 5 1)) nil None) as [[[ps1 a] v] lp]. reflexivity.
+      - destruct (p_act P ps (e_obs E s (ks k0 5 1)) (ks k0 5 2) None) as [[[ps1 a] v] lp]. reflexivity. }
+    rewrite (kfoldmap_scan_rewards F HF). reflexivity.
+  Qed.
+End RolloutScan.
+
+Print Assumptions gen_rscan_eq_model.
